@@ -5,7 +5,10 @@ sys.path.insert(0, os.path.dirname(os.path.abspath(__file__)))
 import props
 allp = [json.loads(l)['id'] for l in open(os.path.join(props.VERIF, 'properties.jsonl'))]
 checks = []
+root = open(os.path.join(props.LEAN, 'Pm.lean')).read()
+claimed = [p for p in props.PROPS if ('import Pm.Props.%s\n' % p) in root]
 for pid, d in props.PROPS.items():
+    if pid not in claimed: continue
     checks.append(dict(
         property_id=pid, quick_cmd='./check %s quick' % pid, thorough_cmd='./check %s thorough' % pid,
         evidence_file='/verif/evidence/%s.json' % pid, replay_cmd_template='./check replay {path}',
@@ -13,11 +16,11 @@ for pid, d in props.PROPS.items():
         level_claimed=dict(category='proof', text=d.get('level_text', 'Lean 4 theorems over a hand-written model tied to the code by a differential correspondence run; see DESIGN.md'), design_ref='DESIGN.md §6 ' + pid),
         level_note=d.get('level_note', 'Trusted: Lean kernel, standard axioms, the correspondence harness and its generators; see DESIGN.md §8'),
         technique=d.get('technique', 'machine-checked proof (Lean 4) over a model validated by differential correspondence with the C code')))
-na = [dict(property_id=p, reason=props.NOT_YET.get(p, 'no check registered yet')) for p in allp if p not in props.PROPS]
+na = [dict(property_id=p, reason=props.NOT_YET.get(p, 'no check registered yet')) for p in allp if p not in claimed]
 m = dict(version=1, setup_cmd='./check setup',
          hooks=dict(guard='POWERMAN_VERIF', enable='none needed: harnesses reach statics by #include of the .c files and system calls by -Wl,--wrap; no source hook exists',
                     baseline_off_cmd='make -C /repo -j8 check', source_commits=[], add_only=True),
-         engines=[dict(name='lean+correspondence', path='/verif/check', serves_properties=list(props.PROPS.keys()),
+         engines=[dict(name='lean+correspondence', path='/verif/check', serves_properties=claimed,
                        kind_free_text='Lean 4 library (lean/Pm) with property theorems in Pm/Props; translator for tables; C harnesses built from /repo working tree (ASan+UBSan) compared with compiled Lean drivers over a line protocol; predicates on the implementation trace')],
          checks=checks, not_applicable=na,
          notes='Every check: regenerate tables from /repo, lake build, axiom audit of the property theorems, correspondence run, predicates on the real code\'s trace. See DESIGN.md.')
